@@ -86,8 +86,49 @@ Theorem C16_grpc_no_panic : forall (pw : str) (md : option (list str)),
 Proof. exact grpc_reject_unauthenticated. Qed.
 Print Assumptions C16_grpc_no_panic.
 
+(** The interceptor stands in front of EVERY unary method ([handler], request and response types
+    are arbitrary): a call that fails the check returns the interceptor's status and no response
+    message, the state is returned unchanged, and the answer does not depend on the state. *)
+Theorem C16_grpc_gate :
+  forall (state req resp : Type) (handler : req -> state -> state * resp)
+         (pw : str) (md : option (list str)) (r : req),
+  grpc_password_ok pw md = false ->
+  forall st : state,
+    grpc_serve handler pw md r st = (st, inl (grpc_gate pw md)) /\ grpc_gate pw md <> AuthAccept.
+Proof. exact @grpc_serve_rejects. Qed.
+Print Assumptions C16_grpc_gate.
+
+Theorem C16_grpc_gate_accepts :
+  forall (state req resp : Type) (handler : req -> state -> state * resp)
+         (pw : str) (md : option (list str)) (r : req),
+  grpc_password_ok pw md = true ->
+  forall st : state,
+    grpc_serve handler pw md r st = (fst (handler r st), inr (snd (handler r st))).
+Proof. exact @grpc_serve_accepts. Qed.
+Print Assumptions C16_grpc_gate_accepts.
+
 (* ------------------------------------------------------------------------- *)
 (** * TLS and start-up *)
+
+(** The decision function GetTLSConfig on its own, for every configuration (all 16 set/unset
+    combinations of certificate, key, flag, CA) and every file oracle: it answers "no TLS" only
+    when nothing TLS-related is configured; a TLS configuration always has the server
+    certificate (and a key was given), requires and verifies client certificates whenever the
+    flag or a CA is configured, and carries the CA pool exactly when a CA is configured.
+    Everything else is an error (start-up refused). *)
+Theorem C16_tls_decision : forall (sc : secconf) (o : file_oracle),
+  oracle_wf o ->
+  match tls_decision sc o with
+  | TlsErr _ => True
+  | NoTLS => sc_cert sc = [] /\ sc_verify sc = false /\ sc_ca sc = []
+  | TLS c =>
+      sc_cert sc <> [] /\ sc_key sc <> [] /\ tc_certs c = true
+      /\ (sc_verify sc = true \/ sc_ca sc <> [] -> tc_client_auth c = RequireAndVerifyClientCert)
+      /\ (sc_verify sc = false -> sc_ca sc = [] -> tc_client_auth c = NoClientCert)
+      /\ (sc_ca sc <> [] <-> tc_client_cas c = true)
+  end.
+Proof. exact tls_decision_table. Qed.
+Print Assumptions C16_tls_decision.
 
 (** For EVERY security configuration (in particular all 16 set/unset combinations of
     certificate, key, verification flag, client CA — and every password), every environment and
@@ -192,6 +233,13 @@ Example C16_ex_gate :
   rest_gate proceed (s_ "secret") rq [s_ "lock-a"] = ([s_ "lock-a"], resp_401)
   /\ hr_status resp_401 = 401%Z /\ hr_body resp_401 = [] /\ hr_set_cookie resp_401 = false
   /\ fst (rest_gate proceed [] rq [s_ "lock-a"]) = [s_ "/session"; s_ "lock-a"].
+Proof. vm_compute. auto. Qed.
+
+Example C16_ex_grpc_gate :
+  let handler (r : str) (st : list str) := (r :: st, concat st) in
+  grpc_serve handler (s_ "secret") (Some [s_ "Secret"]) (s_ "unlock a") [s_ "lock-a"] = ([s_ "lock-a"], inl AuthInvalid)
+  /\ grpc_serve handler (s_ "secret") None (s_ "unlock a") [s_ "lock-a"] = ([s_ "lock-a"], inl AuthMissing)
+  /\ grpc_serve handler (s_ "secret") (Some [s_ "secret"]) (s_ "x") [s_ "lock-a"] = ([s_ "x"; s_ "lock-a"], inr (s_ "lock-a")).
 Proof. vm_compute. auto. Qed.
 
 Example C16_ex_grpc :
